@@ -168,6 +168,21 @@ def replay(pool, calls, tid):
         t["fp"].append(bool(same and eq))
         t["memos"].append(ses.memo())
     t["ftrees"] = [eng_reduce.snapshot(ses.objs[r - 1]) for r in pool["roots"]]
+    # C10, last clause: AFTER the whole behaviour every pool object still evaluates like a never-used copy
+    # (probed only at the end, so that the probes do not become part of the history being replayed)
+    probe_ok = True
+    bad_probe = None
+    for i, (o, fz) in enumerate(zip(ses.objs, frozen)):
+        if type(o).__name__ in ("Variable", "Constant"):
+            continue
+        for pi in range(min(3, len(ses.pts))):
+            a = J.outcome_of(lambda: o.at(ses.pts[pi]))
+            b = J.outcome_of(lambda: fz.at(ses.pts[pi]))
+            if a.get("k") != b.get("k") or a.get("repr") != b.get("repr"):
+                probe_ok = False
+                bad_probe = {"node": i + 1, "point": pool["points"][pi], "used_object": a, "fresh_copy": b}
+    t["probe_ok"] = probe_ok
+    t["bad_probe"] = bad_probe or {"node": 0}
     return t
 
 
@@ -203,14 +218,15 @@ def directed(pool, rnd, n_aba, tier):
     return seqs
 
 
-def model_check(pool, work, cfg="Smoothmath.cfg", expect_violation=False):
-    pf = os.path.join(work, f"pool_{pool['name']}.json")
+def model_check(pool, work, cfg="Smoothmath.cfg", expect_violation=False, workers=16):
+    pf = os.path.join(work, f"mpool_{pool['name']}.json")
     json.dump(pool, open(pf, "w"))
-    return tlcrun.run("SmoothmathMC", cfg.replace("Smoothmath", "SmoothmathMC") if not cfg.startswith("SmoothmathMC") else cfg, env_extra={"POOL_FILE": pf}, timeout=1500, expect_violation=expect_violation)
+    return tlcrun.run("SmoothmathMC", cfg.replace("Smoothmath", "SmoothmathMC") if not cfg.startswith("SmoothmathMC") else cfg, env_extra={"POOL_FILE": pf},
+                      timeout=1500, expect_violation=expect_violation, workers=workers)
 
 
 def simulate(pool, work, n, seed):
-    pf = os.path.join(work, f"pool_{pool['name']}.json")
+    pf = os.path.join(work, f"spool_{pool['name']}.json")
     json.dump(pool, open(pf, "w"))
     res = tlcrun.run("Smoothmath", "Smoothmath_sim.cfg", env_extra={"POOL_FILE": pf}, timeout=600, workers=4,
                      extra_args=["-simulate", f"num={n}", "-depth", "8", "-seed", str(seed + 1)], expect_violation=True)
@@ -234,26 +250,34 @@ def run(pid, tier, seed):
               "model_states": 0, "model_transitions": 0, "kf1_attributed": 0, "untruthful_flags": 0, "simulated_behaviours": 0}
     samples = []
     try:
-        # 1. the model, exhaustively (all pools in the thorough tier; a rotating subset in the quick tier)
-        chosen = pools if not quick else [pools[(seed + k) % len(pools)] for k in ((0, 2, 5) if pid == "C09" else (1, 3) if pid == "C06" else (4,))]
-        for pool in chosen:
-            res = model_check(pool, work)
-            if res["violated"]:
-                raise Machinery(f"the state-machine model violates {res['violated']} on pool {pool['name']} (design-level counterexample)\n"
-                                + "\n".join(res["out"].splitlines()[-60:])[:6000])
-            rep.add_tlc(res)
-            counts["model_states"] += res.get("distinct", 0)
-            counts["model_transitions"] += res.get("generated", 0)
-        # the named finding as a design-level counterexample: the model with rule T2 as the code has it must FAIL RoutesAgree/HistoryFree
+        from concurrent.futures import ThreadPoolExecutor
         kp = kf1_pool()
-        if pid in ("C06", "C09"):
-            resk = model_check(kp, work, cfg="Smoothmath_each.cfg", expect_violation=True)
-            counts["kf1_model_counterexample"] = resk["violated"] or "none"
-        # 2 + 3. behaviours -> real library -> ApiTrace
-        for pool in pools + ([kp] if pid in ("C06", "C09") else []):
+        # 1. the model, exhaustively (all pools in the thorough tier; a rotating subset in the quick tier) - TLC runs in parallel
+        chosen = pools if not quick else [pools[(seed + k) % len(pools)] for k in ((0, 2, 5) if pid == "C09" else (1, 3) if pid == "C06" else (4,))]
+        trace_pools = pools + ([kp] if pid in ("C06", "C09") else [])
+        sim_pools = [p for p in pools] if not quick else [pools[(seed + k) % len(pools)] for k in (0, 3, 6, 7)]
+        with ThreadPoolExecutor(max_workers=4) as tp:
+            f_model = [(pool, tp.submit(model_check, pool, work, "Smoothmath.cfg", False, 6)) for pool in chosen]
+            f_kf1 = tp.submit(model_check, kp, work, "Smoothmath_each.cfg", True, 4) if pid in ("C06", "C09") else None
+            f_sim = {pool["name"]: tp.submit(simulate, pool, work, 6 if quick else 40, seed) for pool in sim_pools}
+            for pool, f in f_model:
+                res = f.result()
+                if res["violated"]:
+                    raise Machinery(f"the state-machine model violates {res['violated']} on pool {pool['name']} (design-level counterexample)\n"
+                                    + "\n".join(res["out"].splitlines()[-60:])[:6000])
+                rep.add_tlc(res)
+                counts["model_states"] += res.get("distinct", 0)
+                counts["model_transitions"] += res.get("generated", 0)
+            if f_kf1 is not None:
+                # the named finding as a design-level counterexample: with rule T2 as the code has it the model must FAIL
+                counts["kf1_model_counterexample"] = f_kf1.result()["violated"] or "none"
+            sims = {k: f.result()[0] for k, f in f_sim.items()}
+        # 2. behaviours -> real library (main thread: per-call alarms), 3. -> ApiTrace (TLC runs in parallel)
+        jobs = []
+        for pool in trace_pools:
             seqs = []
-            if pool["name"] != "kf1":
-                sim, rs = simulate(pool, work, 6 if quick else 40, seed)
+            if pool["name"] in sims:
+                sim = sims[pool["name"]]
                 rnd.shuffle(sim)
                 sim = sim[: (60 if quick else 1500)]
                 counts["simulated_behaviours"] += len(sim)
@@ -264,16 +288,23 @@ def run(pid, tier, seed):
             pf = os.path.join(work, f"pool_{pool['name']}.json")
             json.dump(pool, open(pf, "w"))
             write_ndjson(tf, traces)
-            res = tlcrun.run("ApiTrace", "ApiTrace.cfg", trace_file=tf, env_extra={"POOL_FILE": pf}, timeout=1500)
+            jobs.append((pool, traces, tf, pf))
+        with ThreadPoolExecutor(max_workers=4) as tp:
+            futs = [tp.submit(tlcrun.run, "ApiTrace", "ApiTrace.cfg", tf, 4, 1500, {"POOL_FILE": pf}) for pool, traces, tf, pf in jobs]
+            results = [f.result() for f in futs]
+        for (pool, traces, tf, pf), res in zip(jobs, results):
             rep.add_tlc(res)
             verd = {l["tid"]: l for l in res["lines"] if isinstance(l, dict) and "tid" in l}
             if len(verd) != len(traces):
                 raise Machinery(f"verdict lines {len(verd)} != behaviours {len(traces)} on pool {pool['name']}")
             counts["behaviours"] += len(traces)
             pending = []
+            PENDING_INIT = True
             for t in traces:
                 vd = verd[t["tid"]]
                 v = vd["v"]
+                if not vd["probe"]:
+                    pending.append(("C10.object_evaluates_differently_from_fresh_copy", {"pool": pool["name"], "heap": pool["heap"], "history": t["calls"], "probe": t["bad_probe"]}, pool, t["calls"][0]))
                 if not v["flags"]:
                     counts["untruthful_flags"] += 1
                     if pid == "C09":
